@@ -7,7 +7,7 @@ use bump_scope::alloc::{AllocError, Allocator};
 use bump_scope::settings::{Bool, BumpSettings, MinimumAlignment, SupportedMinimumAlignment};
 use bump_scope::stats::AnyStats;
 use bump_scope::traits::{BumpAllocator, BumpAllocatorCore, BumpAllocatorCoreScope, BumpAllocatorScope, BumpAllocatorTyped, BumpAllocatorTypedScope, MutBumpAllocatorTypedScope};
-use bump_scope::{BaseAllocator, Bump, BumpScope, BumpScopeGuard, BumpVec, Checkpoint, MutBumpString, MutBumpVec, MutBumpVecRev, WithoutDealloc, WithoutShrink};
+use bump_scope::{BaseAllocator, Bump, BumpScope, BumpScopeGuard, BumpVec, Checkpoint, FixedBumpVec, MutBumpString, MutBumpVec, MutBumpVecRev, WithoutDealloc, WithoutShrink};
 use std::alloc::Layout;
 use std::ptr::NonNull;
 
@@ -36,6 +36,16 @@ pub struct Snap {
     /// big_to_small() is the reverse of small_to_big(), typed and type-erased
     pub rev_ok: bool,
     pub claimed: bool,
+}
+
+thread_local! {
+    /// set by the interpreter: the closure handed to alloc_try_with(_mut) panics instead of returning
+    pub static CLOSURE_PANICS: std::cell::Cell<bool> = const { std::cell::Cell::new(false) };
+}
+fn closure_may_panic() {
+    if CLOSURE_PANICS.with(|c| c.get()) {
+        std::panic::panic_any(String::from("scripted closure panic"));
+    }
 }
 
 pub type AllocRes = Result<(usize, usize), ()>; // (virtual address, returned length)
@@ -96,7 +106,7 @@ pub trait ScopeOps {
     /// alloc_fmt / alloc_cstr_fmt with a Display value that writes the given pieces: (address, bytes incl. NUL)
     fn fmt_grow(&self, pieces: &[Vec<u8>], cstr: bool, via: &str) -> Result<(usize, Vec<u8>), ()>;
     /// creates a growable vector (BumpVec<T, A>) with A = a shared reference to this handle, possibly wrapped
-    fn vec_new<'s>(&'s self, esz: usize, eal: usize, c0: usize, wrap: Wrap) -> Result<Box<dyn VecOps + 's>, ()>;
+    fn vec_new<'s>(&'s self, esz: usize, eal: usize, c0: usize, wrap: Wrap, fixed: bool) -> Result<Box<dyn VecOps + 's>, ()>;
     /// creates an exclusive-borrow collection of elements of layout (esz, eal) with initial capacity c0
     fn prep<'s>(&'s mut self, esz: usize, eal: usize, rev: bool, via: &str, c0: usize, init: Option<u8>) -> Result<Box<dyn PrepOps + 's>, ()>;
 }
@@ -220,6 +230,65 @@ impl<'a, T: Elem, A: BumpAllocatorTypedScope<'a>> VecOps for BumpVec<T, A> {
         let len = b.len();
         let ptr = b.into_raw();
         if had_buffer { (v(ptr.cast::<u8>()), len, slice_bytes(ptr.cast::<T>().as_ptr(), len)) } else { (0, 0, Vec::new()) }
+    }
+}
+
+/// The fixed-capacity vector: allocated once, a request beyond the capacity is refused (`Err` / unwinding panic).
+impl<'a, T: Elem> VecOps for FixedBumpVec<'a, T> {
+    fn extend(&mut self, how: &str, k: usize, tags: &[u8], panicking: bool) -> Result<(), ()> {
+        let vals: Vec<T> = tags.iter().map(|&t| T::make(t)).collect();
+        if panicking {
+            match how {
+                "push" => self.push(vals[0]),
+                "extend_copy" => self.extend_from_slice_copy(&vals),
+                "extend_clone" => self.extend_from_slice_clone(&vals),
+                "within_copy" => self.extend_from_within_copy(0..k),
+                "within_clone" => self.extend_from_within_clone(0..k),
+                "resize" => {
+                    let n = FixedBumpVec::len(self) + k;
+                    self.resize(n, vals[0])
+                }
+                "reserve" => self.reserve(k),
+                other => panic!("unknown fixed vector operation {other}"),
+            }
+            return Ok(());
+        }
+        match how {
+            "push" => self.try_push(vals[0]),
+            "extend_copy" => self.try_extend_from_slice_copy(&vals),
+            "extend_clone" => self.try_extend_from_slice_clone(&vals),
+            "within_copy" => self.try_extend_from_within_copy(0..k),
+            "within_clone" => self.try_extend_from_within_clone(0..k),
+            "resize" => {
+                let n = FixedBumpVec::len(self).saturating_add(k);
+                self.try_resize(n, vals[0])
+            }
+            "reserve" => self.try_reserve(k),
+            other => panic!("unknown fixed vector operation {other}"),
+        }
+        .map_err(|_| ())
+    }
+    fn shrink_to_fit(&mut self) {}
+    fn truncate(&mut self, n: usize) {
+        FixedBumpVec::truncate(self, n)
+    }
+    fn addr(&self) -> usize {
+        if self.capacity() == 0 { 0 } else { v(NonNull::new(self.as_ptr() as *mut u8).unwrap()) }
+    }
+    fn len(&self) -> usize {
+        FixedBumpVec::len(self)
+    }
+    fn cap(&self) -> usize {
+        self.capacity()
+    }
+    fn bytes(&self) -> Vec<u8> {
+        if self.capacity() == 0 { Vec::new() } else { slice_bytes(self.as_ptr(), FixedBumpVec::len(self)) }
+    }
+    fn into_slice(self: Box<Self>) -> (usize, usize, Vec<u8>) {
+        let b = (*self).into_boxed_slice();
+        let len = b.len();
+        let ptr = b.into_raw();
+        (v(ptr.cast::<u8>()), len, slice_bytes(ptr.cast::<T>().as_ptr(), len))
     }
 }
 
@@ -611,7 +680,10 @@ macro_rules! impl_scope_ops {
             macro_rules! go {
                 ($t:ty, $e:ty, $eval:expr) => {{
                     let r: Result<Result<bump_scope::BumpBox<'_, $t>, $e>, ()> = if is_mut {
-                        let f = || -> Result<$t, $e> { if ok { Ok(<$t>::make(tag)) } else { Err($eval) } };
+                        let f = || -> Result<$t, $e> {
+                            closure_may_panic();
+                            if ok { Ok(<$t>::make(tag)) } else { Err($eval) }
+                        };
                         match via {
                             "panicking" | "typed" => Ok(self.alloc_try_with_mut(f)),
                             _ => self.try_alloc_try_with_mut(f).map_err(|_| ()),
@@ -624,6 +696,7 @@ macro_rules! impl_scope_ops {
                                     inner_addr.set(a);
                                 }
                             }
+                            closure_may_panic();
                             if ok { Ok(<$t>::make(tag)) } else { Err($eval) }
                         };
                         match via {
@@ -825,11 +898,12 @@ where
         }
     }
 
-    fn vec_new<'s>(&'s self, esz: usize, eal: usize, c0: usize, wrap: Wrap) -> Result<Box<dyn VecOps + 's>, ()> {
+    fn vec_new<'s>(&'s self, esz: usize, eal: usize, c0: usize, wrap: Wrap, fixed: bool) -> Result<Box<dyn VecOps + 's>, ()> {
         let ts = self;
         macro_rules! mk {
             ($t:ty) => {
                 match wrap {
+                    Wrap::None if fixed => Ok(Box::new(FixedBumpVec::<$t>::try_with_capacity_in(c0, ts).map_err(|_| ())?)),
                     Wrap::None => Ok(Box::new(BumpVec::<$t, _>::try_with_capacity_in(c0, ts).map_err(|_| ())?)),
                     Wrap::Wd => Ok(Box::new(BumpVec::<$t, _>::try_with_capacity_in(c0, WithoutDealloc(ts)).map_err(|_| ())?)),
                     Wrap::Ws => Ok(Box::new(BumpVec::<$t, _>::try_with_capacity_in(c0, WithoutShrink(ts)).map_err(|_| ())?)),
@@ -1300,9 +1374,9 @@ where
     fn prep<'s>(&'s mut self, esz: usize, eal: usize, rev: bool, via: &str, c0: usize, init: Option<u8>) -> Result<Box<dyn PrepOps + 's>, ()> {
         self.as_mut_scope().prep(esz, eal, rev, via, c0, init)
     }
-    fn vec_new<'s>(&'s self, esz: usize, eal: usize, c0: usize, wrap: Wrap) -> Result<Box<dyn VecOps + 's>, ()> {
+    fn vec_new<'s>(&'s self, esz: usize, eal: usize, c0: usize, wrap: Wrap, fixed: bool) -> Result<Box<dyn VecOps + 's>, ()> {
         // the same vector type as for a scope handle: BumpVec<T, &BumpScope> (through Bump::as_scope)
-        self.as_scope().vec_new(esz, eal, c0, wrap)
+        self.as_scope().vec_new(esz, eal, c0, wrap, fixed)
     }
     fn with_bmws(&mut self, n: usize, f: &mut dyn FnMut(&mut dyn ScopeOps)) {
         self.as_mut_scope().with_bmws(n, f)
